@@ -188,7 +188,11 @@ func explore(args []string) {
 					}
 				}
 				if rem := time.Until(deadline); rem > 0 && left > 1 {
-					cfgDeadline = time.Now().Add(rem / time.Duration(left))
+					share := rem / time.Duration(left)
+					if floor := min(rem, 10*time.Second); share < floor {
+						share = floor // many small configurations: none is cut short while time remains
+					}
+					cfgDeadline = time.Now().Add(share)
 				}
 			}
 			ex := &vexp.Explorer{Sc: sc, Params: cfg, B: b, Shard: *shard, NShards: *nshards, Split: 2, Deadline: cfgDeadline}
